@@ -672,6 +672,14 @@ BV_WIDTH = 64
 def _bv_binop(a, b, op):
     """symbolic (op) symbolic on integers: exact only for 0 <= a, b < 2**64, which
     is proved on the current path first (otherwise the path is inconclusive)."""
+    if op in ("or", "xor"):
+        # x | y == x ^ y == x + y when the operands occupy disjoint bit ranges: one is a multiple of
+        # 2**k and the other lies in [0, 2**k) -- proved on the current path before it is used
+        for k in (8, 16, 24, 32, 1, 2, 4, 6, 14, 30, 62):
+            w = 1 << k
+            for x, y in ((a, b), (b, a)):
+                if E.prove(z3.And(x % w == 0, y >= 0, y < w)) is None:
+                    return x + y
     lim = 1 << BV_WIDTH
     if E.prove(z3.And(a >= 0, a < lim, b >= 0, b < lim)) is not None:
         raise Inconclusive("symbolic bit operation on operands not provably within 64 bits")
